@@ -81,6 +81,12 @@ class FieldArrayModel(FieldCompositeModel):
             f.name = self.name + "[" + str(i) + "]"
         
     def pre_randomize(self, visited):
+        # Solver nodes cached by a previous call belong to a solver 
+        # instance that no longer exists (a call that ends with an 
+        # exception never reaches post_randomize)
+        self.sum_expr_btor = None
+        self.product_expr_btor = None
+        
         # Set the size field for arrays that don't
         # have a random size
         if self.is_rand_sz:
@@ -196,6 +202,12 @@ class FieldArrayModel(FieldCompositeModel):
         if self.product_expr_btor is None:
             self.product_expr_btor = self.get_product_expr().build(btor, ctx_width)
         return self.product_expr_btor    
+        
+    def dispose(self):
+        super().dispose()
+        self.size.dispose()
+        self.sum_expr_btor = None
+        self.product_expr_btor = None
         
     def accept(self, v):
         v.visit_field_scalar_array(self)
